@@ -10,3 +10,7 @@ CLAIMS["C14"] = ("proof",
   "Every Buffer[T] operation named in the property (NewBuffer, PushTyped, Pop, Peek, UpdateFront, Clear, Elements, Restore, Size, Capacity, CanPush, Name) has a contract over the view 'elements as a sequence' - whole-view postconditions (length, every index, name and capacity unchanged, refusal exactly at capacity, zero value when empty, Elements/Restore copy) - proved on the generic body for every T, every capacity and every content length, including both append branches (in place / reallocate) and aliasing of backing arrays.",
   "Trusted: hooking.NumHooks/InvokeHook do not modify the buffer (hooks are arbitrary callbacks). The JSON round-trip clause of the property is handled under C08 (not claimed yet). Replay covers the first 6 elements of a counterexample.",
   "DESIGN.md §5 C14")
+CLAIMS["C20"] = ("proof",
+  "Proved on the real Storage code for all addresses, lengths, capacities and unit sizes: a Read or Write whose range address+len exceeds the capacity (including at address==capacity, crossing the capacity inside a unit, and ranges that wrap the 64-bit address space) returns an error; a failing Read/Write assigns nothing at all (heap equality with the entry state); a range inside the capacity succeeds with len(result)==len; chunking never indexes outside a unit or the caller's buffer; units are created zero-filled with exactly unitSize bytes and the unit map stays well-formed (loop invariants, callee contracts).",
+  "PARTIAL: the byte-level view clause (a read returns the bytes last written, regardless of unit size) and the checkpoint clause are not yet under contract - they need a quantified view over a symbolic unit size. Preconditions: unitSize in (0,2^40], capacity <= 2^62. Trusted: sync.Mutex Lock/Unlock are sequential no-ops.",
+  "DESIGN.md §5 C20")
